@@ -3,8 +3,11 @@
 //! random values; the registry maps the names of spec/Builtin.tla!TypeTable to monomorphic drivers.
 //! The projection knows nothing about CBOR.
 use crate::abs::{bytes, u64b};
-use minicbor::bytes::{ByteArray, ByteVec};
+use minicbor::bytes::ByteArray;
+#[cfg(feature = "alloc")]
+use minicbor::bytes::ByteVec;
 use minicbor::data::{Int, Tag, Tagged};
+#[cfg(feature = "std")]
 use minicbor::{CborLen, Decode, Encode};
 use rand::{rngs::StdRng, Rng};
 use serde_json::{json, Value};
@@ -95,6 +98,7 @@ impl Abs for Box<str> { fn to_abs(&self) -> Value { text(self) } fn gen(rng: &mu
 impl Abs for std::borrow::Cow<'static, str> { fn to_abs(&self) -> Value { text(self) } fn gen(rng: &mut StdRng, _: u32) -> Self { gen_string(rng).into() } }
 impl Abs for std::path::PathBuf { fn to_abs(&self) -> Value { text(self.to_str().unwrap()) } fn gen(rng: &mut StdRng, _: u32) -> Self { gen_string(rng).into() } }
 impl Abs for Box<std::path::Path> { fn to_abs(&self) -> Value { text(self.to_str().unwrap()) } fn gen(rng: &mut StdRng, _: u32) -> Self { std::path::PathBuf::from(gen_string(rng)).into_boxed_path() } }
+#[cfg(feature = "alloc")]
 impl Abs for ByteVec { fn to_abs(&self) -> Value { json!({"k":"bytes","b":bytes(self)}) } fn gen(rng: &mut StdRng, _: u32) -> Self { gen_bytes(rng).into() } }
 impl<const N: usize> Abs for ByteArray<N> {
     fn to_abs(&self) -> Value { json!({"k":"bytes","b":bytes(&self[..])}) }
@@ -184,9 +188,12 @@ impl Abs for Tag { fn to_abs(&self) -> Value { json!({"k":"tagv","tg":u64b(self.
 impl<const N: u64, T: Abs> Abs for Tagged<N, T> { fn to_abs(&self) -> Value { json!({"k":"tagged","x":self.value().to_abs()}) } fn gen(rng: &mut StdRng, d: u32) -> Self { Tagged::new(T::gen(rng, d)) } }
 
 // ------------------------------------------------------------------------------------------------
+#[cfg(feature = "std")]
 pub trait Full: Abs + Encode<()> + CborLen<()> + for<'b> Decode<'b, ()> {}
+#[cfg(feature = "std")]
 impl<T: Abs + Encode<()> + CborLen<()> + for<'b> Decode<'b, ()>> Full for T {}
 
+#[cfg(feature = "std")]
 /// Decode `bytes` as T and report value, position, the re-encoding of the decoded value and its computed length.
 pub fn decode_report<T: Full>(b: &[u8]) -> Value {
     let mut d = minicbor::Decoder::new(b);
@@ -204,6 +211,7 @@ pub fn decode_report<T: Full>(b: &[u8]) -> Value {
     }
 }
 
+#[cfg(feature = "std")]
 /// Events for one random value of T: round trip ("rt"), a re-framed alternative encoding ("alt"), a mutation ("mut").
 pub fn exercise<T: Full>(name: &str, rng: &mut StdRng, sink: &mut crate::gen::Sink, n: usize, want: &str) {
     for _ in 0..n {
@@ -238,9 +246,11 @@ pub fn exercise<T: Full>(name: &str, rng: &mut StdRng, sink: &mut crate::gen::Si
 macro_rules! registry {
     ($m:ident, $($key:literal => $t:ty),* $(,)?) => {
         /// Replay: decode the specification's bytes as the named type.
+        #[cfg(feature = "std")]
         pub fn decode_named(name: &str, b: &[u8]) -> Option<Value> {
             match name { $( $key => Some(decode_report::<$t>(b)), )* _ => None }
         }
+        #[cfg(feature = "std")]
         pub fn exercise_all(rng: &mut StdRng, sink: &mut crate::gen::Sink, n: usize, want: &str) {
             $( exercise::<$t>($key, rng, sink, n, want); )*
         }
@@ -275,6 +285,7 @@ registry!(reg,
 );
 
 /// Comparison for replayed typed cases.
+#[cfg(feature = "std")]
 pub fn matches(obs: &Value, exp: &Value) -> bool {
     obs["p"] == "run" && obs["dec_ok"] == true && obs["dec"] == exp["dec"] && obs["pos"] == exp["pos"] && obs["len"] == exp["len"]
         && obs["reenc_ok"] == true && (exp["unordered"] == true || obs["reenc"] == exp["reenc"])
